@@ -69,7 +69,7 @@ fn main() {
     match prop {
         "C01" => { c01::search(&mut rng, budget, &mut fails); if fails.is_empty() { c06::search(&mut rng, budget / 4, &mut fails); } }
         "C05" => c05::search(&mut rng, budget, &mut fails),
-        "C07" => c07::search(&mut rng, budget, &mut fails),
+        "C07" => { c07::search(&mut rng, budget, &mut fails); if fails.is_empty() { c08::search(&mut rng, budget / 2, &mut fails); } }
         "C06" => c06::search(&mut rng, budget, &mut fails),
         "C11" => c11::search(&mut rng, budget, &mut fails),
         "C12" => { c12::search(&mut rng, budget, &mut fails); if fails.is_empty() { c11::search(&mut rng, budget / 4, &mut fails); } }
@@ -79,7 +79,7 @@ fn main() {
         "C13-gap" => c13::search_gap(&mut rng, budget, &mut fails, 26 * 3600),
         "C18" | "C17" => c18::search(&mut rng, budget, &mut fails),
         "C19" => c19::search(&mut rng, budget, &mut fails),
-        "C14" => c14::search(&mut rng, budget, &mut fails),
+        "C14" => { c14::search(&mut rng, budget, &mut fails); if fails.is_empty() { c13::search(&mut rng, budget / 4, &mut fails); } }
         "C15" => c15::search(&mut rng, budget, &mut fails),
         "C10" => c10::search(&mut rng, budget, &mut fails),
         "C04" => c04::search(&mut rng, budget, &mut fails),
